@@ -90,7 +90,7 @@ DONE = {
   'atoms, pair map, residue extension and clash count are unchanged, residue pairs are mapped key by key and Fnat is unchanged; with hydrogens excluded '
   '(clash count, Fnat) the result is that of the structure without its hydrogen atoms, and row labels are immaterial (any strictly increasing relabelling), so '
   'hydrogen records inserted anywhere change neither; the interface / ligand zones of a renumbered reference are the old zones renumbered and the fast '
-  'i-RMSD / L-RMSD pipelines give the same value. PARTIAL: the SQL RMSD routes under renumbering, RMSD under added hydrogens, and permutations are decided by '
+  'i-RMSD / L-RMSD pipelines give the same value; any permutation of the decoy records leaves the SQL i-RMSD unchanged. PARTIAL: the SQL RMSD routes under renumbering, RMSD under added hydrogens, and permutations for the other measures are decided by '
   'the metamorphic correspondence only. '
   'Known finding F6 (permuted decoy + fast RMSD routes without enforcement). Print Assumptions: closed under the global context.'),
  'C12': ('§5.C12',
